@@ -200,7 +200,7 @@ Section Page.
     rewrite <- app_assoc. reflexivity.
   Qed.
 
-  Lemma equiv_one onTop c :
+  Lemma equiv_one (onTop : bool) (c : bytes) :
     wrap_equiv c (if onTop then s_q_open ++ c ++ s_q_close ++ s_sp2 else s_sp2 ++ c).
   Proof.
     destruct onTop.
